@@ -2,7 +2,7 @@
 from . import defs as D
 from .core import uncp
 
-HEADER = "#![allow(warnings)]\n#![allow(arithmetic_overflow)]   // rustc flags `V as i8` on enums whose variants lie more than 127 positions apart\nuse vsupport::*;\n"
+HEADER = "#![allow(warnings)]\n#![allow(arithmetic_overflow)]   // rustc flags `V as i8` on enums whose variants lie more than 127 positions apart\nuse vsupport::*;\n// the module alias many crates have: generated code must not pick it up for the two-parameter Result it means\npub type Result<T> = ::core::result::Result<T, ()>;\n"
 
 
 def captured_fn(E):
